@@ -106,7 +106,10 @@ pub fn parse_anns(answer: &str) -> Option<Vec<Vec<Option<Ann>>>> {
         if tok == "_" {
             c.push(None);
         } else {
-            let (h, l) = tok.split_once(':')?;
+            // `h:l` or `h:l:<guard>` (the nil guard is the model's business; the trace check uses
+            // height and the unconditional locals bound)
+            let mut parts = tok.split(':');
+            let (h, l) = (parts.next()?, parts.next()?);
             c.push(Some(Ann { h: h.parse().ok()?, l: l.parse().ok()? }));
         }
         tok.clear();
